@@ -4,7 +4,7 @@ package main
 //
 // Line kinds (first token after the property id):
 //   D  <join> <where> <star> <items> # <rows> # <res after>*      direct path, model-compared
-//   W  <where> <gkeys> # <rows> # <gvals after>*                  window path up to Window.Add
+//   W  <join> <where> <gkeys> <analytic> # <rows> # <gvals after>*  window path up to Window.Add
 //   U  <kind> <mode> <sqlhex> <before> <after>                    deep snapshot of the caller's map
 //   S  <kind> <sqlhex> <at-delivery> <later>                      a row given to a sink, later
 //   P  <kind> <mode> <sqlAhex> <sqlBhex> <soloA> <pairedA> <soloB> <pairedB>
@@ -324,7 +324,7 @@ func c20GenQuery(rng *RNG, needA bool) *c20Query {
 			al := rng.Pick([]string{"p1", "p2", "p3", "p1", "p2", "n", "b", "l"})
 			add(c20Item{kind: "L", a: rng.Pick([]string{"a", "b"}), out: al})
 		case 5:
-			add(c20Item{kind: "E", a: rng.Pick([]string{"upper", "lower"}), b: rng.Pick([]string{"s", "s", "t"}), out: rng.Pick([]string{"u1", "u2"})})
+			add(c20Item{kind: "E", a: rng.Pick([]string{"upper", "lower"}), b: rng.Pick([]string{"s", "s", "t", "S", "T"}), out: rng.Pick([]string{"u1", "u2"})})
 		}
 	}
 	if len(q.items) == 0 {
@@ -358,6 +358,13 @@ func c20GenRow(rng *RNG, id int) map[string]any {
 	if rng.Intn(3) == 0 {
 		r["t"] = rng.Pick(c20Words)
 	}
+	// the same names in the other letter case, with other values (row keys are case-sensitive)
+	if rng.Intn(2) == 0 {
+		r["S"] = rng.Pick(c20Words) + "S"
+	}
+	if rng.Intn(3) == 0 {
+		r["T"] = rng.Pick(c20Words) + "T"
+	}
 	if rng.Intn(2) == 0 {
 		r["n"] = map[string]any{"x": rng.Intn(9), "y": []any{rng.Intn(9), "q", map[string]any{"z": nil}}}
 	}
@@ -368,7 +375,7 @@ func c20GenRow(rng *RNG, id int) map[string]any {
 }
 
 func c20Sentinel(i int) map[string]any {
-	return map[string]any{"a": c20Sent + i, "b": c20Sent + i, "k": 0, "s": "zz", "t": "zz"}
+	return map[string]any{"a": c20Sent + i, "b": c20Sent + i, "k": 0, "s": "zz", "t": "zz", "S": "ZZ", "T": "ZZ"}
 }
 
 func c20Table() []map[string]any {
@@ -512,6 +519,8 @@ type c20WQuery struct {
 	wf    string
 	wc    int
 	gkeys []string
+	join  string // "-", "I", "L": stream-table JOIN in front of the window
+	an    string // "-", or an analytic function over an aggregate in SELECT (evaluated on the result rows)
 }
 
 func (q *c20WQuery) sql() string {
@@ -520,7 +529,21 @@ func (q *c20WQuery) sql() string {
 		sel = append(sel, fmt.Sprintf("%s AS g%d", g, i))
 	}
 	sel = append(sel, "last_value(a) AS la")
+	switch q.an {
+	case "lag":
+		sel = append(sel, "lag(last_value(a)) AS pl")
+	case "acc_sum":
+		sel = append(sel, "acc_sum(count(*)) AS pl")
+	case "had_changed":
+		sel = append(sel, "had_changed(true, last_value(a)) AS pl")
+	}
 	s := "SELECT " + strings.Join(sel, ", ") + " FROM stream"
+	switch q.join {
+	case "I":
+		s += " JOIN meta m ON k = m.k"
+	case "L":
+		s += " LEFT JOIN meta m ON k = m.k"
+	}
 	if q.wkind == "F" {
 		s += fmt.Sprintf(" WHERE %s > %d", q.wf, q.wc)
 	}
@@ -531,13 +554,27 @@ func (q *c20WQuery) desc() string {
 	if q.wkind == "F" {
 		w = fmt.Sprintf("WF,%s,%d", q.wf, q.wc)
 	}
-	return w + " " + strings.Join(q.gkeys, ";")
+	a := "A-"
+	if q.an != "-" {
+		a = "A," + q.an
+	}
+	return "J" + q.join + " " + w + " " + strings.Join(q.gkeys, ";") + " " + a
 }
 
 func c20RunW(rng *RNG, o *Out) error {
-	q := &c20WQuery{wkind: "-"}
+	q := &c20WQuery{wkind: "-", join: "-", an: "-"}
 	if rng.Intn(3) == 0 {
 		q.wkind, q.wf, q.wc = "F", rng.Pick([]string{"a", "b"}), rng.Intn(10)
+	}
+	// features of the window path are COMBINED: function group keys x analytic in SELECT x JOIN x WHERE
+	if rng.Intn(2) == 0 {
+		q.an = rng.Pick([]string{"lag", "acc_sum", "had_changed"})
+	}
+	switch rng.Intn(6) {
+	case 0:
+		q.join = "I"
+	case 1:
+		q.join = "L"
 	}
 	switch rng.Intn(5) {
 	case 0:
@@ -552,7 +589,7 @@ func c20RunW(rng *RNG, o *Out) error {
 		q.gkeys = []string{"upper(s)", "lower(t)"}
 	}
 	functions.VerifResetBridgeCaches()
-	s, err := c20Open(q.sql(), false)
+	s, err := c20Open(q.sql(), q.join != "-")
 	if err != nil {
 		return err
 	}
@@ -595,6 +632,12 @@ func c20RunW(rng *RNG, o *Out) error {
 	}
 	o.Line("C20 W %s # %s # %s", q.desc(), strings.Join(toks, " "), strings.Join(obs, " "))
 	o.Count("W_window_path")
+	if q.an != "-" {
+		o.Count("W_window_path_with_analytic")
+	}
+	if q.join != "-" {
+		o.Count("W_window_path_with_join")
+	}
 	return nil
 }
 
@@ -648,6 +691,157 @@ func c20URow(rng *RNG, i int) map[string]any {
 		"tags": []any{"z", "a", "m", "a", rng.Intn(3)},
 		"nest": map[string]any{"p": rng.Intn(5), "q": []any{3, 1, 2, map[string]any{"deep": []any{"x"}}}, "r": map[string]any{"s": "t"}},
 	}
+}
+
+// Generated COMBINATIONS of features (the fixed kinds above exercise one feature at a time): on the
+// window path  window type x plain/function-expression group keys x analytic function over an
+// aggregate in SELECT x JOIN x WHERE x HAVING;  on the direct path  JOIN x analytic in SELECT x analytic
+// in WHERE x expression columns x SELECT *.  Whatever the combination, the caller's map must come back
+// as it went in and delivered rows must stay as delivered.
+func c20ComboWindow(rng *RNG) c20Kind {
+	join := "-"
+	switch rng.Intn(5) {
+	case 0:
+		join = "I"
+	case 1:
+		join = "L"
+	}
+	win := rng.Pick([]string{"CountingWindow(2)", "CountingWindow(3)", "CountingWindow(2)", "TumblingWindow('40ms')", "SessionWindow('30ms')", "SlidingWindow('60ms','30ms')"})
+	pool := []string{"dev", "upper(dev)", "lower(dev)", "k", "concat(dev, '_x')", "upper(dev)", "lower(dev)"}
+	if join != "-" {
+		pool = append(pool, "m.c", "upper(m.c)")
+	}
+	var gks []string
+	seen := map[string]bool{}
+	for n := 1 + rng.Intn(2); len(gks) < n; {
+		g := rng.Pick(pool)
+		if !seen[g] {
+			seen[g] = true
+			gks = append(gks, g)
+		}
+	}
+	var sel, tags []string
+	fn := false
+	for i, g := range gks {
+		sel = append(sel, fmt.Sprintf("%s AS g%d", g, i))
+		if strings.Contains(g, "(") {
+			fn = true
+		}
+	}
+	if fn {
+		tags = append(tags, "fnkey")
+	} else {
+		tags = append(tags, "plainkey")
+	}
+	agg := rng.Pick([]string{"sum(v)", "avg(v)", "count(*)", "max(v)"})
+	sel = append(sel, "sum(v) AS sv")
+	if agg != "sum(v)" {
+		sel = append(sel, agg+" AS ag")
+	}
+	switch rng.Intn(7) {
+	case 0:
+		sel = append(sel, "lag("+agg+") AS an")
+		tags = append(tags, "lag")
+	case 1:
+		sel = append(sel, "acc_sum("+agg+") AS an")
+		tags = append(tags, "accsum")
+	case 2:
+		sel = append(sel, "had_changed(true, "+agg+") AS an")
+		tags = append(tags, "hadchanged")
+	case 3:
+		sel = append(sel, "changed_col(true, "+agg+") AS an")
+		tags = append(tags, "changedcol")
+	case 4:
+		sel = append(sel, "lag("+agg+") AS an", "acc_sum(count(*)) AS an2")
+		tags = append(tags, "lag2")
+	}
+	sql := "SELECT " + strings.Join(sel, ", ") + " FROM stream"
+	switch join {
+	case "I":
+		sql += " JOIN meta m ON k = m.k"
+		tags = append(tags, "join")
+	case "L":
+		sql += " LEFT JOIN meta m ON k = m.k"
+		tags = append(tags, "leftjoin")
+	}
+	if rng.Intn(3) == 0 {
+		sql += " WHERE " + rng.Pick([]string{"v >= 0", "id >= 1", "v < 1000"})
+		tags = append(tags, "where")
+	}
+	sql += " GROUP BY " + strings.Join(gks, ", ") + ", " + win
+	if rng.Intn(4) == 0 {
+		sql += " HAVING sv >= 0"
+		tags = append(tags, "having")
+	}
+	tags = append(tags, strings.ToLower(win[:strings.Index(win, "W")]))
+	return c20Kind{"combo_window_" + strings.Join(tags, "_"), sql, false, join != "-", fn}
+}
+
+func c20ComboDirect(rng *RNG) c20Kind {
+	join := "-"
+	switch rng.Intn(4) {
+	case 0:
+		join = "I"
+	case 1:
+		join = "L"
+	}
+	var sel, tags []string
+	if rng.Intn(4) == 0 {
+		sel = append(sel, "*")
+		tags = append(tags, "star")
+	} else {
+		sel = append(sel, "id")
+		if rng.Intn(2) == 0 {
+			sel = append(sel, "nest.p AS np", "tags")
+		}
+	}
+	write := false
+	na := rng.Intn(3)
+	for i := 0; i < na; i++ {
+		f := rng.Pick([]string{"lag(v)", "lag(nest)", "had_changed(true, dev)", "changed_col(true, v)", "lag(v) OVER (PARTITION BY dev)", "acc_sum(v)"})
+		// the alias sometimes collides with an input column
+		al := rng.Pick([]string{"a1", "a2", "a3", "dev", "nest", "tags"})
+		if !strings.Contains(strings.Join(sel, ","), " AS "+al) {
+			sel = append(sel, f+" AS "+al)
+			write = true
+		}
+	}
+	if write {
+		tags = append(tags, "analytic")
+	}
+	if sel[0] != "*" && rng.Intn(2) == 0 {
+		sel = append(sel, rng.Pick([]string{"upper(dev) AS e1", "v * 2 AS e1", "concat(dev, '_y') AS e1", "array_length(tags) AS e1"}))
+		tags = append(tags, "expr")
+	}
+	if join != "-" && sel[0] != "*" {
+		sel = append(sel, "m.c AS mc")
+	}
+	sql := "SELECT " + strings.Join(sel, ", ") + " FROM stream"
+	switch join {
+	case "I":
+		sql += " JOIN meta m ON k = m.k"
+		tags = append(tags, "join")
+	case "L":
+		sql += " LEFT JOIN meta m ON k = m.k"
+		tags = append(tags, "leftjoin")
+	}
+	switch rng.Intn(4) {
+	case 0:
+		sql += " WHERE lag(v) >= 0"
+		tags = append(tags, "wherelag")
+		write = true
+	case 1:
+		sql += " WHERE v - lag(v) >= 10 AND id >= 0"
+		tags = append(tags, "wherelagexpr")
+		write = true
+	case 2:
+		sql += " WHERE v >= 10"
+		tags = append(tags, "where")
+	}
+	if len(tags) == 0 {
+		tags = append(tags, "plain")
+	}
+	return c20Kind{"combo_direct_" + strings.Join(tags, "_"), sql, true, join != "-", write}
 }
 
 // every registered function applied to a nested argument must leave the argument alone
@@ -805,6 +999,115 @@ func c20PSpecs(rng *RNG) []c20PSpec {
 	return ps
 }
 
+// "Near-text" pairs: the two instances evaluate expressions whose texts are equal up to a lossy
+// normalisation (letter case, runs of blanks, a trailing blank) at a place where it matters - inside a
+// quoted literal, or in a column name while the rows carry both spellings.  Any process-wide memo table
+// whose key identifies such texts hands one instance the other's program.
+func c20PRowNear(rng *RNG, inst, i int) map[string]any {
+	w := rng.Pick([]string{"ab", "Cd", "xY z", "q"})
+	n := rng.Intn(9) + 1
+	return map[string]any{"id": i,
+		"dev": w, "Dev": w + "2", "DEV": w + "3",
+		"val": n, "Val": 100 + n, "VAL": 10000 + n,
+		"txt": "t" + w, "Txt": "u" + w, "TXT": "v" + w}
+}
+
+func c20SwapCase(s string) string {
+	b := []byte(s)
+	for i, c := range b {
+		switch {
+		case c >= 'a' && c <= 'z':
+			b[i] = c - 32
+		case c >= 'A' && c <= 'Z':
+			b[i] = c + 32
+		}
+	}
+	return string(b)
+}
+
+func c20NearSpecs(rng *RNG, n int) []c20PSpec {
+	letters := "abcdefghkmnpqrstuvwxyzABCDEFGHKMNPQRSTUVWXYZ"
+	word := func() string {
+		l := 3 + rng.Intn(5)
+		b := make([]byte, l)
+		for i := range b {
+			b[i] = letters[rng.Intn(len(letters))]
+		}
+		if rng.Intn(2) == 0 { // an inner blank, so that blank-normalisation has something to bite on
+			b[1+rng.Intn(l-2)] = ' '
+		}
+		return "-" + string(b)
+	}
+	litT := []string{"concat(dev, '%s')", "concat('%s', dev)", "coalesce(zz, '%s')", "concat(upper(dev), '%s')", "replace(dev, dev, '%s')", "length('%s') + val"}
+	colNum := []string{"round(%s * 2)", "abs(%s) + 1", "coalesce(%s, 0)", "sqrt(%s * %s)", "floor(%s / 2)"}
+	colStr := []string{"upper(%s)", "concat(%s, '-k')", "length(%s)", "lower(%s) + 'z'"}
+	numCols := [][2]string{{"val", "VAL"}, {"val", "Val"}, {"Val", "VAL"}}
+	strCols := [][2]string{{"dev", "DEV"}, {"dev", "Dev"}, {"txt", "TXT"}, {"Txt", "txt"}}
+	wrap := func(e string, ctx int) (string, bool) {
+		switch ctx {
+		case 0:
+			return "SELECT id, " + e + " AS r FROM stream", true
+		case 1:
+			return "SELECT id, " + e + " AS r, upper(dev) AS u FROM stream WHERE id >= 0", true
+		default:
+			return "SELECT " + e + " AS g, count(*) AS c, last_value(id) AS lid FROM stream GROUP BY " + e + ", CountingWindow(1)", false
+		}
+	}
+	var ps []c20PSpec
+	for len(ps) < n {
+		var ea, eb, kind string
+		switch rng.Intn(6) {
+		case 0, 1: // literal: letter case
+			t := rng.Pick(litT)
+			w := word()
+			var v string
+			switch rng.Intn(3) {
+			case 0:
+				v = strings.ToUpper(w)
+			case 1:
+				v = strings.ToLower(w)
+			default:
+				v = c20SwapCase(w)
+			}
+			ea, eb, kind = strings.ReplaceAll(t, "%s", w), strings.ReplaceAll(t, "%s", v), "near_text_literal_case"
+		case 2: // literal: blanks
+			t := rng.Pick(litT)
+			w := word()
+			v := w + " "
+			if strings.Contains(w, " ") && rng.Intn(2) == 0 {
+				v = strings.Replace(w, " ", "  ", 1)
+			}
+			ea, eb, kind = strings.ReplaceAll(t, "%s", w), strings.ReplaceAll(t, "%s", v), "near_text_literal_blanks"
+		case 3: // numeric column: letter case
+			t := rng.Pick(colNum)
+			c := numCols[rng.Intn(len(numCols))]
+			ea, eb, kind = strings.ReplaceAll(t, "%s", c[0]), strings.ReplaceAll(t, "%s", c[1]), "near_text_column_case"
+		case 4: // string column: letter case
+			t := rng.Pick(colStr)
+			c := strCols[rng.Intn(len(strCols))]
+			ea, eb, kind = strings.ReplaceAll(t, "%s", c[0]), strings.ReplaceAll(t, "%s", c[1]), "near_text_column_case"
+		case 5: // function name only: same meaning, may legitimately share anything
+			t := rng.Pick([]string{"%s(dev)", "concat(%s(dev), 'k')"})
+			ea, eb, kind = strings.ReplaceAll(t, "%s", "upper"), strings.ReplaceAll(t, "%s", "UPPER"), "near_text_function_case"
+		}
+		if ea == eb {
+			continue
+		}
+		if rng.Bool() {
+			ea, eb = eb, ea
+		}
+		ctx := rng.Intn(3)
+		if strings.Contains(ea, ",") || !strings.HasSuffix(ea, ")") || strings.Count(ea, "(") != 1 {
+			ctx = rng.Intn(2) // the GROUP BY parser takes a single one-argument function call only
+		}
+		sa, syncA := wrap(ea, ctx)
+		sb, _ := wrap(eb, ctx)
+		nrows := 6
+		ps = append(ps, c20PSpec{kind, sa, sb, c20PRowNear, syncA, nrows})
+	}
+	return ps
+}
+
 // run one instance (solo) or two (paired, inputs interleaved by ord: 0/1 = whose next row);
 // returns the canonical output of every instance
 func c20PRun(sqls []string, rows [][]map[string]any, ord []int, syncMode bool, concurrent bool) ([]string, error) {
@@ -942,7 +1245,9 @@ func c20RunP(rng *RNG, p c20PSpec, mode string, o *Out) error {
 
 // ---------------------------------------------------------------- driver
 func runC20(tier string, seed uint64, o *Out) error {
-	rng := NewRNG(seed)
+	// NewRNG(seed) and NewRNG(seed+1) produce the same stream shifted by one draw; hash the seed first so
+	// that different seeds explore unrelated cases
+	rng := NewRNG((seed ^ 0x5851F42D4C957F2D) * 0xD1342543DE82EF95)
 	nD, nDA, nDP, nW, rounds := 260, 40, 40, 50, 1
 	if tier == "thorough" {
 		nD, nDA, nDP, nW, rounds = 4000, 400, 600, 500, 4
@@ -996,8 +1301,31 @@ func runC20(tier string, seed uint64, o *Out) error {
 	for i := 0; i < nDP; i++ {
 		qa := c20GenQuery(rng, false)
 		qb := qa
-		if rng.Intn(2) == 0 {
+		switch rng.Intn(3) {
+		case 0:
 			qb = c20GenQuery(rng, false)
+		case 1:
+			// the same query with the column of every expression item in the other letter case: the two
+			// instances' expression texts differ only in case
+			cp := *qa
+			cp.items = append([]c20Item(nil), qa.items...)
+			has := false
+			for j := range cp.items {
+				if cp.items[j].kind == "E" {
+					cp.items[j].b = c20SwapCase(cp.items[j].b)
+					has = true
+				}
+			}
+			if !has {
+				f := rng.Pick([]string{"s", "t"})
+				qa = &c20Query{join: qa.join, wkind: qa.wkind, wf: qa.wf, wc: qa.wc, star: false,
+					items: append(append([]c20Item(nil), qa.items...), c20Item{kind: "E", a: "upper", b: f, out: "u9"})}
+				cp = *qa
+				cp.items = append([]c20Item(nil), qa.items...)
+				cp.items[len(cp.items)-1].b = c20SwapCase(f)
+			}
+			qb = &cp
+			o.Count("D_sync_paired_case_variant")
 		}
 		functions.VerifResetBridgeCaches()
 		ia, err := c20NewInst(qa, false)
@@ -1056,6 +1384,39 @@ func runC20(tier string, seed uint64, o *Out) error {
 			o.Count("U_" + k.kind)
 		}
 	}
+	// (5b) generated feature combinations
+	nCW, nCD := 30, 14
+	if tier == "thorough" {
+		nCW, nCD = 240, 120
+	}
+	okc := 0
+	for i := 0; i < nCW; i++ {
+		k := c20ComboWindow(rng)
+		ok, _ := c20RunU(rng, k, "async", o, true)
+		if ok {
+			okc++
+			o.Count("U_combo_window")
+			if k.write && strings.Contains(k.kind, "_lag") || k.write && strings.Contains(k.kind, "_acc") || k.write && strings.Contains(k.kind, "changed") {
+				o.Count("U_combo_window_fnkey_and_analytic")
+			}
+		} else {
+			o.Count("U_combo_window_rejected_sql")
+		}
+	}
+	for i := 0; i < nCD; i++ {
+		k := c20ComboDirect(rng)
+		ok1, _ := c20RunU(rng, k, "sync", o, true)
+		ok2, _ := c20RunU(rng, k, "async", o, true)
+		if ok1 && ok2 {
+			okc++
+			o.Count("U_combo_direct")
+		} else {
+			o.Count("U_combo_direct_rejected_sql")
+		}
+	}
+	if okc < (nCW+nCD)/2 {
+		return fmt.Errorf("feature-combination family: only %d of %d generated queries were accepted by the engine", okc, nCW+nCD)
+	}
 	nfn := 0
 	for _, k := range c20FunctionKinds() {
 		if tier != "thorough" && rng.Intn(3) != 0 {
@@ -1069,8 +1430,12 @@ func runC20(tier string, seed uint64, o *Out) error {
 	o.Dist["U_registered_function_calls"] = nfn
 	// (6) paired vs solo
 	modes := []string{"random", "a_first", "b_first", "concurrent"}
+	nNear := 24
+	if tier == "thorough" {
+		nNear = 60
+	}
 	for r := 0; r < rounds; r++ {
-		for _, p := range c20PSpecs(rng) {
+		for _, p := range append(c20PSpecs(rng), c20NearSpecs(rng, nNear)...) {
 			for _, m := range modes {
 				if tier != "thorough" && m != "random" && rng.Intn(3) != 0 {
 					continue
